@@ -8,7 +8,8 @@ never silently skipped.  Only constants, name tables and inventories are read he
 behavioural goes through the correspondence harness (tie B) -- with one exception: gen_exit_paths()
 reads the ORDER OF STATEMENTS of the per-flow functions (exit paths, C15) and refuses every statement
 it does not recognise, and gen_loop_shapes() reads the SHAPE of the long-lived service loops (which failure ends which
-loop, C08) with the same strictness.  VERIF_REPO=<dir> reads another source tree than /repo.
+loop, C08) with the same strictness, and gen_udp_adapters() reads WHAT THE PER-PROTOCOL UDP ADAPTER FUNCTIONS RETURN (binding key,
+outgoing datagram, reply label; C02 / C09) by evaluating their bodies symbolically.  VERIF_REPO=<dir> reads another source tree than /repo.
 """
 import os, re, sys, json
 
@@ -2129,6 +2130,683 @@ def gen_loop_shapes():
     return header + "\n".join(L) + "\n", facts
 
 
+# ------------------------------------------------------------------------------------------
+# C02 / C09: the per-protocol ADAPTERS of the UDP relay, read off the function BODIES.
+# The client's datagram loop (client/template.rs transfer_udp / new_binding) is generic; what differs between the protocols is
+# in the functions client.rs hands it: new_key, new_*_outbound, to_inbound_recv, to_outbound_send of <protocol>::udp.  For each
+# one the parameters are given ROLES by their position and type in the signature (whatever they are called), the body is
+# evaluated symbolically (tuples, field access, destructuring `let`, clone / to_owned / into / & / *, `if` as a value;
+# log lines and statements that assign nothing are skipped), and the shape of the RESULT is classified:
+#     new_key            SENDER                    KSender            (SENDER, TARGET) in either order   KSenderTarget
+#     to_outbound_send   contains the TARGET       OutKeepsTarget     only the CONTENT (and the proxy)   OutDropsTarget
+#     to_inbound_recv    ((CONTENT, L), SENDER):   L = address of the decoded item      LabelFromServer
+#                                                  L = the binding-target parameter     LabelBindingTarget
+#     new_*_outbound     target parameter unused   OutboundAnyTarget  passed into a constructor (followed through functions
+#                                                  of the same module)                  OutboundFixedTarget
+# Anything else -- a conditional label, a constant key, a dropped payload, a reply not sent to SENDER, transports of one
+# protocol that disagree -- raises (tag [UdpAdapters]).  The roles themselves are anchored at the call sites: which functions
+# client.rs passes for which protocol (one module per call), in which parameter position of transfer_udp, and with which
+# arguments transfer_udp / new_binding call them (sender and target of the received datagram; the creating datagram's target
+# and sender for the reply task).  Server side: which address a relayed datagram is sent to (the packet's / the request
+# header's) and what server/shadowsocks.rs associate_key puts into the association key.
+_UA_VOCAB = """Inductive proto := Shadowsocks | Trojan | Vmess.
+(* new_key(sender, target): what the binding key is made of *)
+Inductive key_shape := KSender | KSenderTarget.
+(* to_outbound_send((content, target), proxy): does the datagram's own target go out with it? *)
+Inductive out_shape := OutKeepsTarget | OutDropsTarget.
+(* to_inbound_recv(item, binding_target, sender): where the address label of the reply comes from *)
+Inductive label_src := LabelFromServer | LabelBindingTarget.
+(* new_*_outbound(target, ..): is the target given at creation built into the outbound (its request header)? *)
+Inductive outbound_binding := OutboundAnyTarget | OutboundFixedTarget.
+(* server: which address a relayed datagram is sent to: the one inside the packet, or the one of the request header *)
+Inductive dest_src := DestPerPacket | DestRequestHeader.
+(* server, shadowsocks: the components of the association key *)
+Inductive akey_part := AkSessionId | AkUser | AkClientUnlessReplayProtected | AkClientAlways.
+"""
+
+_UA_PROTOS = [("Shadowsocks", "Shadowsocks", "shadowsocks"), ("Trojan", "Trojan", "trojan"), ("Vmess", "VMess", "vmess")]   # Coq name, Protocol variant, module
+_UA_IDENTITY_METHODS = {"clone", "to_owned", "into", "as_ref", "borrow", "deref", "cloned", "copied"}
+_UA_IDENTITY_FNS = {"clone", "to_owned", "from", "into"}
+
+
+def _ua_split(t, what, sep=","):
+    """top-level split of a parameter / argument / type list: brackets ( [ { and generic angle brackets are nested"""
+    out, depth, start, i = [], 0, 0, 0
+    while i < len(t):
+        j = _skip_literal(t, i)
+        if j != i:
+            i = j
+            continue
+        c = t[i]
+        if c in "([{":
+            depth += 1
+        elif c in ")]}":
+            depth -= 1
+        elif c == "<" and (i == 0 or re.match(r"[\w:>]", t[i - 1])):
+            depth += 1          # `Client<'a, N>` / `::<16>`  (a comparison has a space before `<` after tidying)
+        elif c == ">" and i > 0 and t[i - 1] not in "-=" and depth > 0 and (i == 0 or t[i - 1] != " "):
+            depth -= 1
+        elif c == sep and depth == 0:
+            out.append(t[start:i].strip())
+            start = i + 1
+        i += 1
+    if depth != 0:
+        raise AnchorMissing("%s: unbalanced brackets in %r" % (what, t[:80]))
+    if t[start:].strip():
+        out.append(t[start:].strip())
+    return out
+
+
+def _ua_top_index(t, pred):
+    """index of the first position at bracket depth 0 (round / square / curly) where pred(t, i) holds, else -1"""
+    depth, i = 0, 0
+    while i < len(t):
+        j = _skip_literal(t, i)
+        if j != i:
+            i = j
+            continue
+        if t[i] in "([{":
+            depth += 1
+        elif t[i] in ")]}":
+            depth -= 1
+        elif depth == 0 and pred(t, i):
+            return i
+        i += 1
+    return -1
+
+
+def _ua_is_single_colon(t, i):
+    return t[i] == ":" and t[i + 1:i + 2] != ":" and t[i - 1:i] != ":"
+
+
+def _ua_is_assign(t, i):
+    return t[i] == "=" and t[i + 1:i + 2] not in ("=", ">") and t[i - 1:i] not in ("=", "!", "<", ">", "+", "-", "*", "/", "%", "|", "&", "^")
+
+
+def _ua_type(ty):
+    ty = re.sub(r"'\w+\s*", "", ty.strip())          # lifetimes
+    return re.sub(r"\s+", "", ty) if not re.search(r"\bmut\b|\bdyn\b|\bimpl\b", ty) else re.sub(r"\s+", " ", ty)
+
+
+def _ua_fn(text, name_re, what):
+    """(name, [(pattern, type)], return type, tidy body) of the fn whose name matches name_re in (tidy) text"""
+    m = re.search(r"\bfn (%s)\b" % name_re, text)
+    if not m:
+        raise AnchorMissing("%s: function not found" % what)
+    hdr, body = _ep_item(text[m.start():], r"\bfn ", what)
+    k = _first_open(hdr, 0, "(", what)
+    e = _close_of(hdr, k, what)
+    params = []
+    for p in _ua_split(hdr[k + 1:e], what):
+        c = _ua_top_index(p, _ua_is_single_colon)
+        if c < 0:
+            params.append((p.strip(), ""))          # self
+        else:
+            params.append((p[:c].strip(), _ua_type(p[c + 1:])))
+    ret = hdr[e + 1:].strip()
+    ret = re.sub(r"\bwhere\b.*", "", ret).strip()
+    ret = _ua_type(ret[2:]) if ret.startswith("->") else ""
+    return m.group(1), params, ret, body, hdr
+
+
+def _ua_show(v):
+    k, x = v
+    if k == "atom":
+        return x
+    if k == "tuple":
+        return "(" + ", ".join(_ua_show(y) for y in x) + ")"
+    if k == "cond":
+        return "either " + " or ".join(_ua_show(y) for y in x)
+    return "<%s>" % x
+
+
+class _UaEval:
+    """symbolic evaluation of a small pure function body"""
+
+    def __init__(self, what):
+        self.what = what
+
+    def fail(self, msg):
+        raise AnchorMissing("%s: %s" % (self.what, msg))
+
+    def bind(self, pat, val, env):
+        pat = pat.strip()
+        c = _ua_top_index(pat, _ua_is_single_colon)
+        if c >= 0:
+            pat = pat[:c].strip()                   # `x: T`
+        while pat.startswith("&"):
+            pat = pat[1:].strip()
+        pat = re.sub(r"^(?:ref |mut )+", "", pat)
+        if pat == "_" or pat == "..":
+            return
+        if re.fullmatch(r"[A-Za-z_]\w*", pat):
+            env[pat] = val
+            return
+        if pat.startswith("(") and _close_of(pat, 0, self.what) == len(pat) - 1:
+            parts = _ua_split(pat[1:-1], self.what)
+            if val[0] == "tuple" and len(val[1]) == len(parts) and ".." not in parts:
+                for p, v in zip(parts, val[1]):
+                    self.bind(p, v, env)
+            else:
+                for p in parts:
+                    self.bind(p, ("opaque", "part of " + _ua_show(val)), env)
+            return
+        for nm in re.findall(r"\b[a-z_]\w*\b", _ep_code_only(pat)):      # a refutable / struct pattern: its variables are unknown values
+            env[nm] = ("opaque", "bound by pattern " + pat)
+
+    def block(self, body, env):
+        sts = _stmts(body, self.what)
+        for i, st in enumerate(sts):
+            last = i == len(sts) - 1
+            if st.startswith("let "):
+                if not st.endswith(";"):
+                    self.fail("unterminated let: %r" % st[:80])
+                inner = st[4:-1]
+                a = _ua_top_index(inner, _ua_is_assign)
+                if a < 0:
+                    self.bind(inner, ("opaque", "uninitialised"), env)
+                else:
+                    self.bind(inner[:a], self.ev(inner[a + 1:], env), env)
+                continue
+            m = re.fullmatch(r"return (.+);", st)
+            if m:
+                return self.ev(m.group(1), env)
+            if last and not st.endswith(";"):
+                return self.ev(st, env)
+            if _ep_is_log(st):
+                continue
+            code = _ep_code_only(st)
+            m = re.fullmatch(r"([A-Za-z_]\w*) = (.+);", st)
+            if m and _ua_top_index(m.group(2), _ua_is_assign) < 0:
+                env[m.group(1)] = self.ev(m.group(2), env)
+                continue
+            if _ua_top_index(code, _ua_is_assign) < 0 and not re.search(r"[^=!<>]=[^=>]", code) and not re.search(r"\breturn\b|\?", code):
+                continue                             # assigns nothing, returns nothing: cannot change the result
+            self.fail("unrecognised statement %r" % st[:120])
+        self.fail("no result expression")
+
+    def ev(self, x, env):
+        x = x.strip()
+        if not x:
+            return ("opaque", "empty")
+        if x[0] == "(" and _close_of(x, 0, self.what) == len(x) - 1:
+            inner = x[1:-1].strip()
+            parts = _ua_split(inner, self.what)
+            if len(parts) == 1 and not inner.endswith(","):
+                return self.ev(parts[0], env)
+            return ("tuple", tuple(self.ev(p, env) for p in parts))
+        if x[0] == "{" and _close_of(x, 0, self.what) == len(x) - 1:
+            return self.block(x[1:-1].strip(), dict(env))
+        if x.startswith("&mut "):
+            return self.ev(x[5:], env)
+        if x[0] in "&*":
+            return self.ev(x[1:], env)
+        if re.match(r"(if|match) ", x):
+            br = _ep_branch(x, self.what)
+            vals = []
+            for (pat, body) in br[1]:
+                if not body.strip():
+                    return ("opaque", "branch without a value")
+                env_b = dict(env)
+                if pat not in ("true", "false"):
+                    self.bind(pat if not re.match(r"\w+\(", pat) else "(" + pat + ")", ("opaque", "matched"), env_b)
+                v = self.block(body, env_b)
+                vals += list(v[1]) if v[0] == "cond" else [v]
+            uniq = []
+            for v in vals:
+                if v not in uniq:
+                    uniq.append(v)
+            return uniq[0] if len(uniq) == 1 else ("cond", tuple(uniq))
+        if re.fullmatch(r"[A-Za-z_]\w*", x):
+            return env.get(x, ("opaque", x))
+        d = -1                                       # last top-level `.` that is a field / method access
+        depth, i = 0, 0
+        while i < len(x):
+            j = _skip_literal(x, i)
+            if j != i:
+                i = j
+                continue
+            if x[i] in "([{":
+                depth += 1
+            elif x[i] in ")]}":
+                depth -= 1
+            elif x[i] == "." and depth == 0 and x[i + 1:i + 2] != "." and x[i - 1:i] != ".":
+                d = i
+            i += 1
+        if d > 0:
+            head, tail = x[:d], x[d + 1:]
+            if re.fullmatch(r"\d+", tail):
+                v = self.ev(head, env)
+                if v[0] == "tuple" and int(tail) < len(v[1]):
+                    return v[1][int(tail)]
+                return ("opaque", "field %s of %s" % (tail, _ua_show(v)))
+            m = re.fullmatch(r"(\w+)\(\)", tail)
+            if m and m.group(1) in _UA_IDENTITY_METHODS:
+                return self.ev(head, env)
+            return ("opaque", x)
+        m = re.fullmatch(r"(?:\w+::)+(\w+)\((.*)\)", x)
+        if m and m.group(1) in _UA_IDENTITY_FNS:
+            args = _ua_split(m.group(2), self.what)
+            if len(args) == 1:
+                return self.ev(args[0], env)
+        return ("opaque", x)
+
+
+def _ua_sym_item(ty, what):
+    """symbolic value of what the outbound stream yields, from its type"""
+    if ty == "DatagramPacket":
+        return ("tuple", (("atom", "ITEM_CONTENT"), ("atom", "ITEM_ADDR")))
+    if ty == "BytesMut":
+        return ("atom", "ITEM_CONTENT")
+    if ty == "Address":
+        return ("atom", "ITEM_ADDR")
+    if ty == "SocketAddr":
+        return ("atom", "ITEM_PEER")
+    if ty.startswith("(") and ty.endswith(")"):
+        return ("tuple", tuple(_ua_sym_item(p, what) for p in _ua_split(ty[1:-1], what)))
+    raise AnchorMissing("%s: item type %r is not made of DatagramPacket / BytesMut / Address / SocketAddr" % (what, ty))
+
+
+def _ua_atoms(v, what, role):
+    k, x = v
+    if k == "atom":
+        return [x]
+    if k == "tuple":
+        return [a for y in x for a in _ua_atoms(y, what, role)]
+    if k == "cond":
+        raise AnchorMissing("%s: %s is CONDITIONAL (%s): not a shape the model knows" % (what, role, _ua_show(v)))
+    raise AnchorMissing("%s: %s contains a value that is not one of the parameters: %s" % (what, role, _ua_show(v)))
+
+
+def _ua_calls(text, callee, what):
+    """argument lists of every call `callee(..)` in (tidy) text"""
+    out = []
+    for m in re.finditer(r"(?<![\w:\.])%s\(" % re.escape(callee), text):
+        k = m.end() - 1
+        out.append(_ua_split(text[k + 1:_close_of(text, k, what)], what))
+    return out
+
+
+def _ua_target_use(modbody, fname, argidx, what, depth=0):
+    """is parameter number argidx of fn `fname` (the target) passed on into a constructor?  -> (fixed?, sink)"""
+    if depth > 3:
+        raise AnchorMissing("%s: call chain too deep" % what)
+    name, params, _ret, body, _h = _ua_fn(modbody, re.escape(fname), what + ": " + fname)
+    if argidx >= len(params):
+        raise AnchorMissing("%s: %s has no parameter %d" % (what, fname, argidx))
+    pat, ty = params[argidx]
+    if depth == 0 and ty != "&Address":
+        raise AnchorMissing("%s: %s: the first parameter is %r, expected the target `&Address`" % (what, fname, ty))
+    pat = re.sub(r"^(?:ref |mut )+", "", pat)
+    if pat == "_":
+        return (False, None)
+    if not re.fullmatch(r"[A-Za-z_]\w*", pat):
+        raise AnchorMissing("%s: %s: target parameter pattern %r" % (what, fname, pat))
+    names, sinks = {pat}, []
+    for st in _stmts(body, what):
+        if _ep_is_log(st):
+            continue
+        code = _ep_code_only(st)
+        m = re.fullmatch(r"let (?:mut )?(\w+)(?:: [^=]+)? = &?(\w+)(?:\.(?:clone|to_owned|into)\(\))?;", code)
+        if m and m.group(2) in names:
+            names.add(m.group(1))
+            continue
+        for nm in list(names):
+            for mm in re.finditer(r"\b%s\b" % re.escape(nm), code):
+                # innermost enclosing call
+                i, d, k = mm.start() - 1, 0, -1
+                while i >= 0:
+                    if code[i] in ")]}":
+                        d += 1
+                    elif code[i] in "([{":
+                        if d == 0:
+                            k = i
+                            break
+                        d -= 1
+                    i -= 1
+                cm = re.search(r"((?:\w+::)*\w+)(?:::<[^()]*>)?$", code[:k]) if k >= 0 and code[k] == "(" else None
+                if not cm:
+                    raise AnchorMissing("%s: %s: the target is used outside a call: %r" % (what, fname, st[:100]))
+                callee = cm.group(1)
+                e = _close_of(code, k, what)
+                args = _ua_split(code[k + 1:e], what)
+                idx = [j for j, a in enumerate(args) if re.search(r"\b%s\b" % re.escape(nm), a)]
+                if "::" not in callee and re.search(r"\bfn %s\b" % re.escape(callee), modbody):
+                    fx, sk = _ua_target_use(modbody, callee, idx[0], what, depth + 1)
+                    if fx:
+                        sinks += sk
+                else:
+                    sinks.append(callee)
+    return (bool(sinks), sorted(set(sinks)))
+
+
+def gen_udp_adapters():
+    L, facts = [], {}
+    TAG = "UdpAdapters"
+
+    # ---------------- the datagram type ----------------
+    find("octo-squirrel/src/codec.rs", r"pub type DatagramPacket = \(BytesMut, Address\);", what="DatagramPacket = (BytesMut, Address)")
+
+    # ---------------- client/template.rs: the roles of the four functions, anchored at the generic loop ----------------
+    f = "octo-squirrel-client/src/client/template.rs"
+    ts = _ep_tidy(src(f))
+    _nm, tparams, _r, tbody, thdr = _ua_fn(ts, "transfer_udp", f + ": transfer_udp")
+    role_rx = {"key": r"(\w+): FnOnce\(SocketAddr, &Address\) -> \w+",
+               "out": r"(\w+): AsyncFn\(&Address, &\w+\) -> Result<",
+               "send": r"(\w+): FnOnce\(DatagramPacket, SocketAddr\) -> \w+",
+               "recv": r"(\w+): FnOnce\(\w+, &Address, SocketAddr\) -> \(DatagramPacket, SocketAddr\)"}
+
+    def roles_of(hdr, params, what, wanted):
+        pos, nm = {}, {}
+        for role in wanted:
+            ms = re.findall(role_rx[role], hdr)
+            if len(ms) != 1:
+                raise AnchorMissing("%s: expected exactly one type parameter bounded like %s" % (what, role_rx[role]))
+            idx = [i for i, (_p, ty) in enumerate(params) if ty == ms[0]]
+            if len(idx) != 1 or not re.fullmatch(r"\w+", params[idx[0]][0]):
+                raise AnchorMissing("%s: expected exactly one parameter of type %s" % (what, ms[0]))
+            pos[role], nm[role] = idx[0], params[idx[0]][0]
+        return pos, nm
+    tpos, tnm = roles_of(thdr, tparams, f + ": transfer_udp", ["key", "out", "send", "recv"])
+    m = re.findall(r"Some\(Ok\(\(\((\w+), (\w+)\), (\w+)\)\)\) = \w+\.next\(\)", tbody)
+    if len(m) != 1:
+        raise AnchorMissing(f + ": transfer_udp: the select! branch that receives ((content, target), sender) from the local socket")
+    dg_content, dg_target, dg_sender = m[0]
+    calls = _ua_calls(tbody, tnm["key"], f)
+    if calls != [[dg_sender, "&" + dg_target]]:
+        raise AnchorMissing(f + ": transfer_udp: the key function must be called once, as %s(%s, &%s); found %r" % (tnm["key"], dg_sender, dg_target, calls))
+    calls = _ua_calls(tbody, tnm["out"], f)
+    if not calls or any(len(a) != 2 or a[0] != "&" + dg_target for a in calls):
+        raise AnchorMissing(f + ": transfer_udp: every outbound is made for the datagram's target: %s(&%s, ..); found %r" % (tnm["out"], dg_target, calls))
+    dgram = "((%s, %s), %s)" % (dg_content, dg_target, dg_sender)
+    calls = _ua_calls(tbody, tnm["send"], f)
+    if not calls or any(len(a) != 2 or a[0] != "(%s, %s)" % (dg_content, dg_target) for a in calls):
+        raise AnchorMissing(f + ": transfer_udp: %s((%s, %s), <server>); found %r" % (tnm["send"], dg_content, dg_target, calls))
+    _nm, bparams, _r, bbody, bhdr = _ua_fn(ts, "new_binding", f + ": new_binding")
+    bpos, bnm = roles_of(bhdr, bparams, f + ": new_binding", ["send", "recv"])
+    midx = [i for i, (_p, ty) in enumerate(bparams) if ty == "(DatagramPacket,SocketAddr)"]
+    if len(midx) != 1:
+        raise AnchorMissing(f + ": new_binding: exactly one parameter of type (DatagramPacket, SocketAddr) (the creating datagram)")
+    calls = _ua_calls(tbody, "new_binding", f)
+    if not calls:
+        raise AnchorMissing(f + ": transfer_udp does not call new_binding")
+    for a in calls:
+        if len(a) != len(bparams) or a[midx[0]] != dgram or a[bpos["recv"]] != tnm["recv"] or a[bpos["send"]] != tnm["send"]:
+            raise AnchorMissing(f + ": transfer_udp: new_binding must get the datagram %s and the two adapter functions in their positions; found %r" % (dgram, a))
+    msg = bparams[midx[0]][0]
+    m = re.findall(r"let \(\((\w+), (\w+)\), (\w+)\) = %s;" % re.escape(msg), bbody)
+    if len(m) != 1:
+        raise AnchorMissing(f + ": new_binding: `let ((content, target), sender) = %s;`" % msg)
+    b_content, b_target, b_sender = m[0]
+    m = re.findall(r"let (\w+) = %s\.(?:clone|to_owned)\(\);" % re.escape(b_target), bbody)
+    calls = _ua_calls(bbody, bnm["recv"], f)
+    ok_targets = ["&" + x for x in m] + ["&" + b_target]
+    if len(calls) != 1 or len(calls[0]) != 3 or calls[0][1] not in ok_targets or calls[0][2] != b_sender:
+        raise AnchorMissing(f + ": new_binding: the reply task must call %s(<received>, &<copy of %s>, %s); found %r" % (bnm["recv"], b_target, b_sender, calls))
+    calls = _ua_calls(bbody, bnm["send"], f)
+    if len(calls) != 1 or len(calls[0]) != 2 or calls[0][0] != "(%s, %s)" % (b_content, b_target):
+        raise AnchorMissing(f + ": new_binding: the first datagram goes out as %s((%s, %s), <server>); found %r" % (bnm["send"], b_content, b_target, calls))
+
+    # ---------------- client.rs: which module's functions are handed to transfer_udp for which protocol ----------------
+    f = "octo-squirrel-client/src/client.rs"
+    _nm, _p, _r, cbody, _h = _ua_fn(_ep_tidy(src(f)), "transfer_udp", f + ": transfer_udp")
+    sts = [st for st in _stmts(cbody, f) if not _ep_is_log(st)]
+    br = None
+    if len(sts) == 1 and sts[0].startswith("match "):      # the match may be followed by `.unwrap_or_else(log)`
+        k = _first_open(sts[0], 6, "{", f)
+        br = (sts[0][6:k].strip(), [(p_, _block_inner(x_)) for (p_, x_) in _arms(sts[0][k + 1:_close_of(sts[0], k, f)], f)])
+    if not br or not re.match(r"\(\w+\.protocol,", br[0]):
+        raise AnchorMissing(f + ": transfer_udp: expected one `match (<config>.protocol, ..)`")
+    wired = {}
+    for (pat, body) in br[1]:
+        pm = re.match(r"\((?:\w+::)*(\w+),", pat)
+        proto = [c for (c, v, _m) in _UA_PROTOS if pm and pm.group(1) == v]
+        calls = _ua_calls(body, "template::transfer_udp", f)
+        if not proto:
+            if calls:
+                raise AnchorMissing(f + ": transfer_udp: arm %r is not one protocol" % pat)
+            continue
+        mod = [mo for (c, _v, mo) in _UA_PROTOS if c == proto[0]][0]
+        for a in calls:
+            if len(a) != len(tparams):
+                raise AnchorMissing(f + ": transfer_udp call with %d arguments, template::transfer_udp has %d parameters" % (len(a), len(tparams)))
+            w = wired.setdefault(proto[0], {"key": set(), "out": set(), "send": set(), "recv": set()})
+            for role in ("key", "out", "send", "recv"):
+                am = re.fullmatch(r"(?:crate::client::|self::|super::)?(\w+)::udp::(\w+)(?:::<[^()]*>)?", a[tpos[role]])
+                if not am or am.group(1) != mod:
+                    raise AnchorMissing(f + ": transfer_udp: the %s function of a %s relay is %r, expected a function of %s::udp" % (role, proto[0], a[tpos[role]], mod))
+                w[role].add(am.group(2))
+    for (c, _v, _m) in _UA_PROTOS:
+        if c not in wired:
+            raise AnchorMissing(f + ": transfer_udp: no relay for %s" % c)
+        for role in ("key", "send", "recv"):
+            if len(wired[c][role]) != 1:
+                raise AnchorMissing(f + ": transfer_udp: the transports of %s use different %s functions: %s" % (c, role, sorted(wired[c][role])))
+
+    # ---------------- the adapter functions themselves ----------------
+    key_shape, out_shape, label_src, bound = {}, {}, {}, {}
+    detail = {}
+    for (c, _v, mod) in _UA_PROTOS:
+        f = "octo-squirrel-client/src/client/%s.rs" % mod
+        _hdr, modbody = _ep_item(src(f), r"\bmod udp \{", f + ": mod udp")
+        # new_key
+        fname = next(iter(wired[c]["key"]))
+        what = "%s: udp::%s" % (f, fname)
+        _nm, params, _ret, body, _h = _ua_fn(modbody, re.escape(fname), what)
+        if [ty for (_p, ty) in params] != ["SocketAddr", "&Address"]:
+            raise AnchorMissing("%s: parameters %r, expected (SocketAddr, &Address)" % (what, params))
+        ev, env = _UaEval(what), {}
+        ev.bind(params[0][0], ("atom", "SENDER"), env)
+        ev.bind(params[1][0], ("atom", "TARGET"), env)
+        v = ev.block(body, env)
+        if v == ("atom", "SENDER"):
+            key_shape[c] = "KSender"
+        elif v[0] == "tuple" and sorted(v[1]) == [("atom", "SENDER"), ("atom", "TARGET")]:
+            key_shape[c] = "KSenderTarget"
+        else:
+            raise AnchorMissing("%s: the key is %s: neither the sender nor (sender, target)" % (what, _ua_show(v)))
+        # to_outbound_send
+        fname = next(iter(wired[c]["send"]))
+        what = "%s: udp::%s" % (f, fname)
+        _nm, params, _ret, body, _h = _ua_fn(modbody, re.escape(fname), what)
+        if [ty for (_p, ty) in params] != ["DatagramPacket", "SocketAddr"]:
+            raise AnchorMissing("%s: parameters %r, expected (DatagramPacket, SocketAddr)" % (what, params))
+        ev, env = _UaEval(what), {}
+        ev.bind(params[0][0], ("tuple", (("atom", "CONTENT"), ("atom", "TARGET"))), env)
+        ev.bind(params[1][0], ("atom", "PROXY"), env)
+        atoms = _ua_atoms(ev.block(body, env), what, "what is sent")
+        if atoms.count("CONTENT") != 1 or atoms.count("TARGET") > 1 or atoms.count("PROXY") > 1:
+            raise AnchorMissing("%s: what is sent is made of %r: the content must be there exactly once" % (what, atoms))
+        out_shape[c] = "OutKeepsTarget" if "TARGET" in atoms else "OutDropsTarget"
+        # to_inbound_recv
+        fname = next(iter(wired[c]["recv"]))
+        what = "%s: udp::%s" % (f, fname)
+        _nm, params, ret, body, _h = _ua_fn(modbody, re.escape(fname), what)
+        if len(params) != 3 or [ty for (_p, ty) in params[1:]] != ["&Address", "SocketAddr"] or ret != "(DatagramPacket,SocketAddr)":
+            raise AnchorMissing("%s: signature %r -> %r, expected (<item>, &Address, SocketAddr) -> (DatagramPacket, SocketAddr)" % (what, params, ret))
+        ev, env = _UaEval(what), {}
+        ev.bind(params[0][0], _ua_sym_item(params[0][1], what), env)
+        ev.bind(params[1][0], ("atom", "BINDING_TARGET"), env)
+        ev.bind(params[2][0], ("atom", "SENDER"), env)
+        v = ev.block(body, env)
+        if not (v[0] == "tuple" and len(v[1]) == 2 and v[1][0][0] == "tuple" and len(v[1][0][1]) == 2):
+            raise AnchorMissing("%s: the result is %s, expected ((content, label), destination)" % (what, _ua_show(v)))
+        (content, label), dst = v[1][0][1], v[1][1]
+        if content != ("atom", "ITEM_CONTENT"):
+            raise AnchorMissing("%s: the payload handed to the application is %s, not the content of the received item" % (what, _ua_show(content)))
+        if dst != ("atom", "SENDER"):
+            raise AnchorMissing("%s: the reply is sent to %s, not to the sender the binding was made for" % (what, _ua_show(dst)))
+        if label == ("atom", "ITEM_ADDR"):
+            label_src[c] = "LabelFromServer"
+        elif label == ("atom", "BINDING_TARGET"):
+            label_src[c] = "LabelBindingTarget"
+        elif label[0] == "cond":
+            raise AnchorMissing("%s: the label of a reply is CONDITIONAL (%s): not a shape the model knows (a label taken from the binding is only the replying target when the binding key contains the target)" % (what, _ua_show(label)))
+        else:
+            raise AnchorMissing("%s: the label of a reply is %s: neither the address of the received item nor the binding's target" % (what, _ua_show(label)))
+        # new_*_outbound
+        res = {}
+        for fname in sorted(wired[c]["out"]):
+            res[fname] = _ua_target_use(modbody, fname, 0, "%s: udp::%s" % (f, fname))
+        if len({fx for (fx, _s) in res.values()}) != 1:
+            raise AnchorMissing("%s: the outbound constructors of one protocol disagree about the target: %r" % (f, res))
+        fx = next(iter(res.values()))[0]
+        bound[c] = "OutboundFixedTarget" if fx else "OutboundAnyTarget"
+        detail[c] = {"outbounds": {k: v[1] for k, v in res.items()}}
+
+    # ---------------- server: which address a relayed datagram is sent to ----------------
+    dest = {}
+
+    def enclosing_fn(text, pos, what):
+        best = None
+        for m in re.finditer(r"\bfn (\w+)\b", text):
+            if m.start() > pos:
+                break
+            try:
+                k = _first_open(text, m.end(), "{", what)
+                e = _close_of(text, k, what)
+            except AnchorMissing:
+                continue
+            semi = text.find(";", m.end(), k)
+            if semi >= 0 and text.count("(", m.end(), semi) == text.count(")", m.end(), semi) and "{" not in text[m.end():semi]:
+                continue                              # a declaration without body
+            if k < pos < e:
+                best = (m.group(1), text[m.start():k], text[k + 1:e])
+        if not best:
+            raise AnchorMissing("%s: no enclosing function" % what)
+        return best
+
+    for (c, mod) in (("Trojan", "trojan"), ("Vmess", "vmess")):
+        f = "octo-squirrel-server/src/server/%s.rs" % mod
+        t = _ep_tidy(src(f))
+        kinds = set()
+        n_sites = 0
+        for m in re.finditer(r"\bInboundIn::RelayUdp\(", t):
+            k = m.end() - 1
+            e = _close_of(t, k, f)
+            if re.match(r" (?:=>|=(?!=)|\|)", t[e + 1:e + 4]) or re.match(r" if ", t[e + 1:e + 5]):
+                continue                              # a pattern, not a construction
+            n_sites += 1
+            args = _ua_split(t[k + 1:e], f)
+            if len(args) != 2:
+                raise AnchorMissing(f + ": InboundIn::RelayUdp with %d fields" % len(args))
+            fname, fhdr, fbody = enclosing_fn(t, m.start(), f + ": InboundIn::RelayUdp(..)")
+            what = "%s: %s" % (f, fname)
+            a = re.sub(r"\.(?:clone|to_owned)\(\)$", "", args[1])
+            hm = re.fullmatch(r"(\w+)\.address", a)
+            if hm and re.search(r"\b%s: &(?:mut )?RequestHeader\b" % re.escape(hm.group(1)), fhdr):
+                kinds.add("DestRequestHeader")
+                continue
+            if re.fullmatch(r"\w+", a):
+                # address, length and payload of the packet are read one after the other from the same buffer
+                bm = re.search(r"\b(\w+): &mut BytesMut\b", fhdr)
+                am = re.findall(r"let %s = (?:\w+::)*address::decode\((\w+)\)\?;" % re.escape(a), fbody)
+                payload = args[0]
+                pm = re.fullmatch(r"\w+", payload) and re.findall(r"let %s = (.+?);" % re.escape(payload), fbody)
+                if pm:
+                    payload = pm[0]
+                sm = re.fullmatch(r"(\w+)\.split_to\((\w+)(?: as usize)?\)", payload)
+                if bm and am == [bm.group(1)] and sm and sm.group(1) == bm.group(1):
+                    lm = list(re.finditer(r"let %s = %s\.get_u16\(\)(?: as usize)?;" % (re.escape(sm.group(2)), re.escape(bm.group(1))), fbody))
+                    ai = fbody.find("let %s = " % a)
+                    if len(lm) == 1 and ai >= 0 and ai < lm[0].start() < fbody.find("InboundIn::RelayUdp("):
+                        kinds.add("DestPerPacket")
+                        continue
+            raise AnchorMissing("%s: the address of a relayed datagram is %r: neither the request header's nor one decoded from the packet itself" % (what, args[1]))
+        if n_sites == 0 or len(kinds) != 1:
+            raise AnchorMissing(f + ": InboundIn::RelayUdp constructions: %d sites, kinds %s" % (n_sites, sorted(kinds)))
+        dest[c] = next(iter(kinds))
+    f = "octo-squirrel-server/src/server/shadowsocks.rs"
+    t = _ep_tidy(src(f))
+    _nm, _p, _r, ubody, _h = _ua_fn(t, "startup_udp", f + ": startup_udp")
+    m = re.findall(r"match SessionCodec::<\w+>::decode\(&\w+, &mut \w+\) \{ Ok\(Some\(\((\w+), (\w+), (\w+)\)\)\) => \{", ubody)
+    if len(m) != 1:
+        raise AnchorMissing(f + ": startup_udp: `match SessionCodec::<N>::decode(..) { Ok(Some((content, peer_addr, session))) => {`")
+    d_content, d_peer, d_session = m[0]
+    mm = re.findall(r"let (\w+) = \(%s, %s, %s\);" % (d_content, d_peer, d_session), ubody)
+    sent = ["(%s, %s, %s)" % (d_content, d_peer, d_session)] + mm
+    _nm, _p, _r, rbody, _h = _ua_fn(t, "relay", f + ": UdpAssociateContext::relay")
+    m = re.findall(r"Some\(\((\w+), (\w+), (\w+)\)\) => \{", rbody)
+    if len(m) != 1:
+        raise AnchorMissing(f + ": relay: the arm that receives (content, peer_addr, session) from the datagram loop")
+    r_content, r_peer, _r_session = m[0]
+    m = re.findall(r"let (\w+) = match %s\.to_socket_addr\(\) \{ Ok\((\w+)\) => (\w+)," % re.escape(r_peer), rbody)
+    if len(m) != 1 or m[0][1] != m[0][2]:
+        raise AnchorMissing(f + ": relay: `let resolved = match %s.to_socket_addr() { Ok(a) => a, ..`" % r_peer)
+    calls = [a for a in re.findall(r"\.send_to\(&(\w+), (\w+)\)", rbody)]
+    if calls != [(r_content, m[0][0])]:
+        raise AnchorMissing(f + ": relay: exactly one send_to(&%s, %s); found %r" % (r_content, m[0][0], calls))
+    if not mm and not re.search(r"try_send\(\(%s, %s, %s\)\)" % (d_content, d_peer, d_session), ubody):
+        raise AnchorMissing(f + ": startup_udp: the decoded (content, peer_addr, session) is what is handed to the association")
+    dest["Shadowsocks"] = "DestPerPacket"
+
+    # ---------------- server/shadowsocks.rs associate_key ----------------
+    cands = []
+    for m in re.finditer(r"\bfn (\w+)\b", t):            # found by its signature (bool, &Session<N>, SocketAddr), whatever it is called
+        try:
+            c_ = _ua_fn(t[m.start():], re.escape(m.group(1)), f)
+        except AnchorMissing:
+            continue
+        if sorted(ty for (_p, ty) in c_[1]) == sorted(["bool", "SocketAddr"] + [ty for (_p, ty) in c_[1] if re.fullmatch(r"&Session<\w+>", ty)][:1]) and len(c_[1]) == 3:
+            cands.append(c_)
+    if len(cands) != 1:
+        raise AnchorMissing(f + ": expected exactly one function (bool, &Session<N>, SocketAddr) -> association key; found %r" % [c_[0] for c_ in cands])
+    akname, params, _ret, body, _h = cands[0]
+    what = f + ": " + akname
+    kl = re.findall(r"let (\w+) = %s\((\w+), &(\w+), (\w+)\);" % re.escape(akname), ubody)
+    if not any(sess == d_session and re.search(r"\.get_mut\(&%s\)" % re.escape(k_), ubody) for (k_, _rp, sess, _cl) in kl):
+        raise AnchorMissing(f + ": startup_udp: the association of a datagram is looked up under `let key = %s(.., &%s, ..)`" % (akname, d_session))
+    roles = {}
+    for (p, ty) in params:
+        role = "RP" if ty == "bool" else "SESSION" if re.fullmatch(r"&Session<\w+>", ty) else "CLIENT" if ty == "SocketAddr" else None
+        if role is None or role in roles or not re.fullmatch(r"_|[A-Za-z_]\w*", p):
+            raise AnchorMissing("%s: parameters %r, expected one bool, one &Session<N>, one SocketAddr" % (what, params))
+        roles[role] = p
+    if set(roles) != {"RP", "SESSION", "CLIENT"}:
+        raise AnchorMissing("%s: parameters %r, expected one bool, one &Session<N>, one SocketAddr" % (what, params))
+    sts = [st for st in _stmts(body, what) if not _ep_is_log(st)]
+    if len(sts) != 1 or sts[0].endswith(";") or not (sts[0].startswith("(") and _close_of(sts[0], 0, what) == len(sts[0]) - 1):
+        raise AnchorMissing("%s: the body is not a single tuple expression" % what)
+    S, RP, CL = (re.escape(roles[r]) for r in ("SESSION", "RP", "CLIENT"))
+    part_rx = [("AkSessionId", r"%s\.client_session_id" % S),
+               ("AkUser", r"%s\.user\.as_ref\(\)\.map\(\|(\w+)\| \1\.identity_hash\)" % S),
+               ("AkClientUnlessReplayProtected", r"if %s \{ None \} else \{ Some\(%s\) \}" % (RP, CL)),
+               ("AkClientUnlessReplayProtected", r"if !%s \{ Some\(%s\) \} else \{ None \}" % (RP, CL)),
+               ("AkClientUnlessReplayProtected", r"\(!%s\)\.then_some\(%s\)" % (RP, CL)),
+               ("AkClientAlways", r"Some\(%s\)" % CL), ("AkClientAlways", CL)]
+    parts = []
+    for comp in _ua_split(sts[0][1:-1], what):
+        if comp == "None":
+            continue                                  # a constant component distinguishes nothing
+        hit = [nm for (nm, rx) in part_rx if re.fullmatch(rx, comp)]
+        if not hit:
+            raise AnchorMissing("%s: unrecognised key component %r" % (what, comp))
+        parts.append(hit[0])
+    if len(set(parts)) != len(parts):
+        raise AnchorMissing("%s: a component occurs twice: %r" % (what, parts))
+
+    # ---------------- output ----------------
+    def table(name, ty, d, origin):
+        facts[name] = dict(d)
+        L.append("Definition %s (p : proto) : %s :=  (* %s *)\n  match p with %s end." % (
+            name, ty, origin, " | ".join("%s => %s" % (c, d[c]) for (c, _v, _m) in _UA_PROTOS)))
+    cm = "octo-squirrel-client/src/client/{shadowsocks,trojan,vmess}.rs mod udp: "
+    table("client_key_shape", "key_shape", key_shape, cm + "new_key")
+    table("client_out_shape", "out_shape", out_shape, cm + "to_outbound_send")
+    table("client_label_src", "label_src", label_src, cm + "to_inbound_recv")
+    table("client_outbound_binding", "outbound_binding", bound, cm + "the new_*_outbound functions client.rs passes to transfer_udp")
+    table("server_udp_dest", "dest_src", dest, "octo-squirrel-server/src/server/{shadowsocks,trojan,vmess}.rs: the address a relayed datagram is sent to")
+    facts["server_assoc_key_parts"] = parts
+    facts["udp_adapter_detail"] = detail
+    L.append("Definition server_assoc_key_parts : list akey_part := [%s].  (* octo-squirrel-server/src/server/shadowsocks.rs associate_key *)" % "; ".join(parts))
+    header = ("(* GENERATED by tools/gen_from_source.py from /repo's working tree -- do not edit.\n"
+              "   UDP adapters: what the per-protocol adapter functions of the client's SOCKS5-UDP relay (and the server's\n"
+              "   association key / destination choice) DO with the sender, the target and the payload, read off their bodies.\n"
+              "   The vocabulary below is fixed text of the translator; the tables after it are extracted. *)\n"
+              "From Coq Require Import List.\nImport ListNotations.\n\n" + _UA_VOCAB + "\n")
+    return header + "\n".join(L) + "\n", facts
+
+
 def write_if_changed(path, content):
     try:
         if open(path, encoding="utf-8").read() == content:
@@ -2145,7 +2823,7 @@ def main():
     facts = {}
     errors = []
     for name, fn in [("Params", gen_params), ("Tables", gen_tables), ("Shared", gen_shared), ("ConfigTables", gen_config),
-                     ("ExitPaths", gen_exit_paths), ("LoopShapes", gen_loop_shapes)]:
+                     ("ExitPaths", gen_exit_paths), ("LoopShapes", gen_loop_shapes), ("UdpAdapters", gen_udp_adapters)]:
         try:
             text, fc = fn()
             facts.update(fc)
